@@ -5,15 +5,15 @@ BASE=${BASE:-$(git -C /repo rev-parse HEAD)}   # pin the commit: /repo may move 
 cd $V
 ids=${@:-$(ls selftest/benign/*.diff | xargs -n1 basename | sed 's/.diff//')}
 checks=$(python3 -c "import json;print(' '.join(c['property_id'] for c in json.load(open('MANIFEST.json'))['checks']))")
-mkdir -p /tmp/benrun
+R=${RUNDIR:-/tmp/benrun}; mkdir -p $R
 for id in $ids; do
-  W=/tmp/benrun/w_$id
+  W=$R/w_$id
   git -C /repo worktree remove --force $W >/dev/null 2>&1
   git -C /repo worktree add --detach $W $BASE >/dev/null 2>&1
   (cd $W && git apply --3way $V/selftest/benign/$id.diff >/dev/null 2>&1 && git reset -q) || { echo "$id: patch does not apply"; git -C /repo worktree remove --force $W; continue; }
   alarms=""
   for c in $checks; do
-    out=$(VERIF_OUT_DIR=/tmp/benrun/out_$id VERIF_DIR=$V ./bin/govc check $c -repo $W 2>&1); r=$?
+    out=$(VERIF_OUT_DIR=$R/out_$id VERIF_DIR=$V ${GOVC:-./bin/govc} check $c -repo $W 2>&1); r=$?
     if [ $r -ne 0 ]; then alarms="$alarms $c($(echo "$out" | grep -c '^VIOLATION'))"; echo "$out" | grep -A1 "^VIOLATION" | grep obligation | head -4 | cut -c1-220 | sed "s/^/    $id $c /"; fi
   done
   echo "$id: alarms:${alarms:- none}"
